@@ -395,6 +395,20 @@ func init() {
 		if !ok {
 			p.targetPanicStr("reflect.MakeSlice of non-slice type")
 		}
+		// a negative length or capacity is the real package's panic, not a modelling limit
+		for k, what := range []string{"len", "cap"} {
+			if t, isT := a[1+k].(*Term); isT && !t.IsConst() {
+				var neg *Term
+				if p.lia {
+					neg = p.ts.ILt(t, p.ts.Int64(0))
+				} else {
+					neg = p.ts.bvCmp(OBvSlt, t, p.ts.BV(0, 64))
+				}
+				if p.branch(neg, "reflect.MakeSlice negative "+what) {
+					p.targetPanicStr("reflect.MakeSlice: negative " + what)
+				}
+			}
+		}
 		n := p.mustConcInt(a[1], tInt, 1<<16, "MakeSlice len", pos)
 		c := p.mustConcInt(a[2], tInt, 1<<16, "MakeSlice cap", pos)
 		if n < 0 || c < n {
